@@ -359,6 +359,23 @@ class Fn:
             return d.get("kind") == "DeclRefExpr" and d["referencedDecl"]["name"] in self.static_zero
         return False
 
+    def is_line_macro(self, n):
+        """an IntegerLiteral produced by the builtin macro __LINE__ (spelled in clang's scratch
+        space, expanded from the 8 characters `__LINE__` of the source file)"""
+        b = n.get("range", {}).get("begin", {})
+        sp, ex = b.get("spellingLoc"), b.get("expansionLoc")
+        if not sp or not ex:
+            return False
+        # clang prints `file` only when it changes, so the scratch-space spelling cannot be relied
+        # on: the source text at the expansion offset decides
+        off, ln = ex.get("offset"), ex.get("tokLen")
+        if ln != 8 or off is None:
+            return False
+        try:
+            return self.unit.src[off:off + 8] == b"__LINE__"
+        except Exception:
+            return False
+
     def is_literal_value(self, n, val):
         n = strip_casts(n)
         if n.get("kind") == "IntegerLiteral":
@@ -394,6 +411,11 @@ class Fn:
             return self.tr_expr(n["inner"][0])
         if k == "IntegerLiteral":
             classify(n["type"])
+            if self.is_line_macro(n):
+                # __LINE__ (only ever used in `return ERROR + __LINE__`): abstracted to 1, so that the
+                # translation does not change when lines are inserted above (error codes are
+                # compared by class - positive - everywhere: wrappers, tie, theorems)
+                return ("i", "(IConst 1 (* __LINE__ *))")
             return ("i", iconst(n["value"]))
         if k == "FloatingLiteral":
             return ("f", self.float_literal(n))
